@@ -6,6 +6,7 @@ open Zu
 type vw = { exts : (int * int) list; ops : op list; data : int list }
 type case = vw array   (* a, b, c *)
 
+let has_ge = ref false   (* set by --has-ge: the library defines >= for rank >= 2 *)
 let names = [| "a"; "b"; "c" |]
 let base_of k = 10000 * k
 
@@ -35,7 +36,7 @@ let run_case (id : string) (c : case) (obs : Buffer.t) : bool =
       (fun (p, q) ->
         let a = vs.(p) and b = vs.(q) in
         let bits = b01 (v_eq a b m) ^ b01 (v_ne a b m) ^ b01 (v_lt a b m) ^ b01 (v_le a b m) ^ b01 (v_gt a b m)
-                   ^ (if rank = 1 then b01 (v_ge a b m) else "-") in
+                   ^ (if rank = 1 || !has_ge then b01 (v_ge a b m) else "-") in
         (* views, owning copies, mixed: one value, whatever the layout or ownership *)
         pr (Printf.sprintf "C %s %s%s view=%s array=%s mixed=%s%s" id names.(p) names.(q) bits (String.sub bits 0 5)
               (b01 (v_eq a b m)) (b01 (v_ne a b m))))
